@@ -337,6 +337,34 @@ def judgeRekeySig (o i : Op) : String :=
       let want := if sessionAccepts [(true, true), x] then "ok" else "fail"
       if i.str "rekey" == want then "ok" else s!"re-key: impl {i.str "rekey"}, model {want}"
 
+/-- scripted client with first_kex_packet_follows against the real server. The peer sends (fkf=1) one guessed init
+    packet of its first preference; with resend=1 it then sends the init of the negotiated method as well.
+    The server sees, after KEXINIT: [guess]? ++ [init]? and must end up having consumed exactly one init. -/
+def judgeFKF (o i : Op) : String :=
+  let ck := csv (o.str "ck"); let sk := csv (o.str "sk")
+  let chk := csv (o.str "chk"); let shk := csv (o.str "shk")
+  let fkf := o.str "fkf" == "1"
+  let resend := o.str "resend" == "1"
+  let strictList := ck ++ ["kex-strict-c-v00@openssh.com"]
+  -- the server's own lists: configured methods (+ libssh alias after curve25519-sha256) + its strict marker
+  let discard := discardGuess fkf strictList sk chk shk
+  let neg := ck.find? (fun k => sk.contains k)
+  match neg with
+  | none => if i.str "s" == "err" then "ok" else "no common key exchange, server did not fail"
+  | some n =>
+    -- packets after KEXINIT that reach the kex method: the guess is for ck[0]; it is usable only if that is the negotiated method
+    let sent : Nat := (if fkf then 1 else 0) + (if resend || !fkf then 1 else 0)
+    let consumedByDiscard : Nat := if discard then 1 else 0
+    let guessUsable := !fkf || ck.head? == some n
+    let reachKex := sent - consumedByDiscard
+    let want :=
+      if reachKex == 1 && (discard || guessUsable) then "ok"      -- exactly one init reaches the kex method, and it fits
+      else if reachKex == 0 then "stall"
+      else "err"
+    if i.str "s" != want then s!"first_kex_packet_follows: server {i.str "s"}, model {want} (discard={discard})"
+    else if want == "ok" && i.str "neg" != n then "negotiated method differs"
+    else "ok"
+
 def handle (line : String) : String :=
   match line.splitOn "\t" with
   | [opS, implS] =>
@@ -344,6 +372,7 @@ def handle (line : String) : String :=
     if o.cmd == "names" then judgeNames (parseOp implS)
     else if o.cmd == "conn" then judgeConn o (parseOp implS)
     else if o.cmd == "rksig" then judgeRekeySig o (parseOp implS)
+    else if o.cmd == "fkf" then judgeFKF o (parseOp implS)
     else if o.cmd == "choose" then judgeChoose o implS
     else if o.cmd == "kex" then judgeKex o (parseOp implS)
     else "bad-op"
